@@ -5,7 +5,7 @@
 From Coq Require Import ZArith List Bool Lia.
 From PCB Require Import lib.Result lib.PyInt lib.GfxPrims gen.Gen_viewport gen.Gen_raster
   model.Matrix model.Viewport model.Raster
-  proofs.Matrix_proofs proofs.Viewport_proofs proofs.Raster_safe proofs.Raster_proofs.
+  model.Flood proofs.Matrix_proofs proofs.Viewport_proofs proofs.Raster_safe proofs.Raster_proofs proofs.Paint_import.
 Import ListNotations.
 Open Scope Z_scope.
 
@@ -92,28 +92,56 @@ Theorem C30_put_requests_ok : forall vp bpp page x y sprite op rqs,
 Proof. exact put_reqs_ok. Qed.
 Print Assumptions C30_put_requests_ok.
 
-(* CIRCLE / ellipse / DRAW / PSET use only the single-pixel path `graph_view[y, x] = attr` (regenerated table
-   raster_store_sites: the sites of _draw_circle, _draw_ellipse, _draw_line, _draw_straight, _pset_preset are
-   (int, int)); such requests are safe for ALL integer coordinates *)
+(* CIRCLE / ellipse (octant and quadrant plotting, the tip of flat ellipses, pie-slice lines) and DRAW (segments,
+   any angle and scale) reach pixels only through `graph_view[y, x] = attr` with integer y, x and through
+   _draw_line: regenerated table raster_store_sites (their stores are (int, int)) and the writer-call check
+   (raster_writer_calls_checked: inside _draw_circle / _draw_ellipse / _draw / _draw_step the only writing calls
+   are _draw_line and, for DRAW "P", _flood_fill; no viewport method is called).  Whatever integers the float
+   arithmetic of radius, aspect and angles produces, such requests are safe: *)
 Definition C30_generator_safe_statement (gen : viewport -> matrix -> list wreq) : Prop :=
   forall vp page, wf_vp vp -> same_dims vp page -> Forall (req_ok vp) (gen vp page).
 
-Theorem C30_circle_partial : forall gen,
+Theorem C30_pixel_requests_safe : forall gen,
   (forall vp page, Forall pixel_req (gen vp page)) -> C30_generator_safe_statement gen.
 Proof. intros gen H vp page Hwf _. apply pixel_reqs_ok; [exact Hwf | apply H]. Qed.
-Print Assumptions C30_circle_partial.
+Print Assumptions C30_pixel_requests_safe.
 
-(* PAINT writes intervals graph_view[y, xl:xr+1]; safe when the interval lies inside the bounds (an invariant of
-   _flood_fill that is not derived here) and a tile row has the interval's width *)
-Theorem C30_paint_partial : forall vp xl xr y d,
+(* VIEW: the regenerated range checks of view_ leave only corners on the screen *)
+Theorem C30_view_checks : forall w h x0 y0 x1 y1,
+  raster_view_checks w h x0 y0 x1 y1 = Ok tt -> 0 <= x0 < w /\ 0 <= x1 < w /\ 0 <= y0 < h /\ 0 <= y1 < h.
+Proof. exact view_checks_ok. Qed.
+Print Assumptions C30_view_checks.
+
+(* PAINT with a solid colour (also DRAW "P"): C32's model of _flood_fill and its soundness / termination theorems,
+   instantiated with the active page and the viewport of C30: for every page content, seed, fill and border
+   attribute the fill terminates and every cell it changes lies inside the viewport bounds, i.e. (absolute
+   coordinates) inside the viewport rectangle *)
+Theorem C30_paint_solid : forall vp m x y fill border,
+  wf_vp vp -> same_dims vp m ->
+  exists bm', flood_fill (paint_fuel (vp_bounds vp)) (vp_bounds vp) (page_bitmap vp m) x y fill border = Ok bm'
+    /\ forall cx cy, pix bm' cx cy <> pix (page_bitmap vp m) cx cy ->
+         let '(ax, ay) := vp_convert_coords vp cx cy in in_rect vp ax ay.
+Proof.
+  intros vp m x y fill border Hwf Hd.
+  destruct (paint_in_viewport vp m x y fill border Hwf Hd) as [bm' [Hrun Hch]].
+  exists bm'. split; [exact Hrun|]. intros cx cy Hne. apply in_view_in_rect. exact (proj1 (Hch cx cy Hne)).
+Qed.
+Print Assumptions C30_paint_solid.
+
+(* PAINT with a tile pattern is not modelled by C32 either.  Proved: an interval request graph_view[y, xl:xr+1]
+   inside the bounds with a tile row of the interval's width is safe; that _flood_fill only issues such intervals
+   for tiled fills is not derived (it is replayed and checked by the correspondence and the oracle) *)
+Theorem C30_paint_tiled_partial : forall vp xl xr y d,
   wf_vp vp -> vp_contains vp xl y = true -> vp_contains vp xr y = true -> xl <= xr + 1 ->
   (match d with Fill _ => True | Block src => Forall (fun s => zlen s = xr - xl + 1) src end) ->
   req_ok vp (WReq (IInt y) (ISlice (Some xl) (Some (xr + 1))) d).
 Proof. exact interval_req_ok. Qed.
-Print Assumptions C30_paint_partial.
+Print Assumptions C30_paint_tiled_partial.
 
-(* ---- 3. statements: PSET / LINE / LINE B / LINE BF / VIEW (fill and border drawn with the viewport unset) / PUT /
-   any replayed safe request list.  In graphics mode a statement never raises a host exception, changes only cells
+(* ---- 3. statements: PSET / LINE / LINE B / LINE BF / VIEW (regenerated corner checks; fill and border drawn with
+   the viewport unset, i.e. clipped to the screen) / PUT (bounds tests, one block write, any action verb) / the
+   pixel lists of CIRCLE and DRAW - all unconditional (stmt_ok = True) - and the generic replay of a request list
+   (tiled PAINT), which needs its requests to be safe.  In graphics mode a statement never raises a host exception, changes only cells
    of the ACTIVE page that lie inside the viewport in force (hence inside the screen), and leaves a good state. *)
 Theorem C30_viewport : forall st s,
   good_state st -> g_text st = false -> stmt_ok st s ->
@@ -135,6 +163,20 @@ Proof.
 Qed.
 Print Assumptions C30_viewport.
 
+(* the same without any side condition for every statement kind except the generic replay *)
+Theorem C30_viewport_all_kinds : forall st s,
+  good_state st -> g_text st = false -> (forall g r e, s <> SReqs g r e) ->
+  exists r st', exec st s = (r, st')
+    /\ (r = Ok tt \/ exists e, r = Err e)
+    /\ (forall y x, cellZ (the_page st') y x <> cellZ (the_page st) y x ->
+          in_rect (draw_vp st s) x y /\ 0 <= x < vp_maxw (g_vp st) /\ 0 <= y < vp_maxh (g_vp st))
+    /\ good_state st' /\ g_apage st' = g_apage st /\ g_text st' = g_text st.
+Proof.
+  intros st s Hg Ht Hk. apply C30_viewport; [exact Hg | exact Ht|].
+  destruct s; try exact I. exfalso. eapply Hk. reflexivity.
+Qed.
+Print Assumptions C30_viewport_all_kinds.
+
 (* pages other than the active page are never changed (no hypothesis), also along any history of statements *)
 Theorem C30_active_page : forall st s r st' p,
   exec st s = (r, st') -> p <> g_apage st -> nth_error (g_pages st') p = nth_error (g_pages st) p.
@@ -155,7 +197,8 @@ Print Assumptions C30_text_mode.
 
 (* the structural facts the translator checked on this run, as data *)
 Example C30_sites_regenerated :
-  (0 < length raster_store_sites)%nat /\ raster_pixels_refs = 2 /\ raster_guarded_statements = 9.
+  (0 < length raster_store_sites)%nat /\ raster_pixels_refs = 2 /\ raster_guarded_statements = 9 /\
+  raster_writer_calls_checked = 4.
 Proof. repeat split. vm_compute. lia. Qed.
 
 (* non-vacuity: a good state; a box-fill far outside on all sides with a viewport set changes exactly the viewport *)
